@@ -53,6 +53,9 @@ func nilWrapsIn(p *Prog, fn *ssa.Function) (nWraps int, out []nilWrap) {
 			out = append(out, nilWrap{cs.Instr, "the wrapped error is the nil constant (an error variable that was never assigned on this path)"})
 			continue
 		}
+		if definitelyError(v, 0) {
+			continue // a sentinel or a freshly made error: never nil
+		}
 		if o == nil {
 			o = NewOrigin(p, fn)
 			fa = NewFacts(p, fn, o)
